@@ -13,7 +13,7 @@ if TYPE_CHECKING:
 HARD_LINEBREAK_RE = re.compile(r" *\n\s*")
 PARAGRAPH = (
     # start with none punctuation, not number, not whitespace
-    r"(?:^[^\s\d" + re.escape(string.punctuation) + r"][^\n]*\n)+"
+    r"^[^\s\d" + re.escape(string.punctuation) + r"][^\n]*\n"
 )
 
 __all__ = ["speedup"]
